@@ -6,3 +6,5 @@
 ; the empty set of file positions
 (define-fun nopos () (Array Int Bool) ((as const (Array Int Bool)) false))
 (declare-const nosize (Array Int Int))
+; the size recorded in a FileInfo value (a snapshot: the same value on every call)
+(declare-fun fisize (Int) Int)
